@@ -89,6 +89,7 @@ def GI0(c):
     return (16384 <= c.max_outbound_frame_size and c.max_outbound_frame_size <= 16777215
             and 16384 <= c.max_inbound_frame_size and c.max_inbound_frame_size <= 16777215
             and c.highest_inbound_stream_id >= 0 and c.highest_outbound_stream_id >= 0
+            and c.highest_inbound_stream_id <= 2147483647 and c.highest_outbound_stream_id <= 2147483647
             and (c.highest_outbound_stream_id == 0 or c.highest_outbound_stream_id % 2 == own_parity(c))
             and (c.highest_inbound_stream_id == 0 or c.highest_inbound_stream_id % 2 != own_parity(c))
             and c.outbound_flow_control_window <= MAXWIN
@@ -96,6 +97,8 @@ def GI0(c):
             and c._inbound_flow_control_window_manager.current_window_size <= c._inbound_flow_control_window_manager.max_window_size
             and c._inbound_flow_control_window_manager._bytes_processed >= 0
             and len(c._closed_streams) <= c._closed_streams._size_limit
+            # the closed-stream memory only holds ids that were used and are no longer live
+            and all(k <= watermark(c, k) and k >= 1 and not (k in c.streams) for k in c._closed_streams)
             and all(STREAM_INV(c, c.streams[k], k) for k in c.streams))
 
 
@@ -122,10 +125,10 @@ def SETTINGS_OK(s):
     always present with valid current values; every stored queue is non-empty."""
     return (all(len(s._settings[k]) >= 1 for k in s._settings)
             and setting_has(s, S_HEADER_TABLE_SIZE)
-            and setting_has(s, S_ENABLE_PUSH) and 0 <= setting_current(s, S_ENABLE_PUSH) and setting_current(s, S_ENABLE_PUSH) <= 1
+            and setting_has(s, S_ENABLE_PUSH)
             and setting_has(s, S_INITIAL_WINDOW_SIZE) and 0 <= setting_current(s, S_INITIAL_WINDOW_SIZE) and setting_current(s, S_INITIAL_WINDOW_SIZE) <= MAXWIN
             and setting_has(s, S_MAX_FRAME_SIZE) and 16384 <= setting_current(s, S_MAX_FRAME_SIZE) and setting_current(s, S_MAX_FRAME_SIZE) <= 16777215
-            and setting_has(s, S_ENABLE_CONNECT_PROTOCOL) and 0 <= setting_current(s, S_ENABLE_CONNECT_PROTOCOL) and setting_current(s, S_ENABLE_CONNECT_PROTOCOL) <= 1
+            and setting_has(s, S_ENABLE_CONNECT_PROTOCOL)
             # values still waiting for their acknowledgement were validated when they were queued
             and queued_in_range(s._settings[S_MAX_FRAME_SIZE], 16384, 16777215)
             and queued_in_range(s._settings[S_INITIAL_WINDOW_SIZE], 0, MAXWIN))
@@ -218,3 +221,19 @@ def settings_header_of(settings):
     for k, v in settings.items():
         f.settings[k] = v
     return base64.urlsafe_b64encode(f.serialize_body())
+
+
+def frame_length_field(data):
+    """The 24-bit length field of the frame header at the start of `data` (RFC 7540 section 4.1)."""
+    return int.from_bytes(bytes(data[:3]), 'big')
+
+
+def frame_header_valid(data):
+    """hyperframe accepts the 9-byte frame header at the start of `data`."""
+    from hyperframe.frame import Frame
+    from hyperframe.exceptions import HyperframeError
+    try:
+        Frame.parse_frame_header(memoryview(bytes(data[:9])))
+        return True
+    except HyperframeError:
+        return False
